@@ -673,7 +673,7 @@ int process_patch(const Options& options)
             // NOTE: we check for file size for the degenerate case that the file is a removal, but has nothing left.
             // NOTE: a patch without any context says the same about the first lines of a file going away
             //       as about the whole file going away. Only the result tells the two apart.
-            const bool first_hunk_leaves_nothing = !patch.hunks.empty()
+            const bool first_hunk_leaves_nothing = patch.operation == Operation::Change && !patch.hunks.empty()
                 && patch.hunks.front().new_file_range.start_line == 0
                 && patch.hunks.front().new_file_range.number_of_lines == 0;
             if (!result.was_skipped && options.remove_empty_files == Options::OptionalBool::Yes && (patch.operation == Operation::Delete || first_hunk_leaves_nothing)) {
